@@ -517,6 +517,7 @@ def run(ctx, table, jobs):
     c = re_cases[len(re_cases) // 2]
     ctx.sample({"kind": "reassign_seq", "fam": c["fam"], "order": c["order"], "from": {k: c["from"][k] for k in ("par", "x", "grad")},
                 "after": [{"assign": s["assign"], "x": s["expect"]["x"], "grad": s["expect"]["grad"]} for s in c["trail"]]})
+    return re_cases          # the pairs of configurations of the Siblings facet (c03_round5)
 
 
 def replay(ctx, table, case):
